@@ -38,6 +38,8 @@ type Solver struct {
 	maxQuery  time.Duration
 	fallbacks int
 	logf      *os.File
+
+	watchdogKills int
 }
 
 var solverTimeoutMs = 1500 // incremental queries; slow ones are re-decided one-shot by a portfolio
@@ -59,7 +61,17 @@ func solverArgv(kind string) []string {
 }
 
 func NewSolver(kind string) *Solver {
-	argv := solverArgv(kind)
+	s := &Solver{kind: kind}
+	if p := os.Getenv("GOSYM_SMTLOG"); p != "" {
+		s.logf, _ = os.Create(fmt.Sprintf("%s.%d.smt2", p, os.Getpid()))
+	}
+	s.start()
+	return s
+}
+
+// start launches (or re-launches) the solver process with an empty assertion stack.
+func (s *Solver) start() {
+	argv := solverArgv(s.kind)
 	cmd := exec.Command(argv[0], argv[1:]...)
 	in, _ := cmd.StdinPipe()
 	out, _ := cmd.StdoutPipe()
@@ -67,15 +79,38 @@ func NewSolver(kind string) *Solver {
 	if err := cmd.Start(); err != nil {
 		panic(err)
 	}
-	s := &Solver{kind: kind, cmd: cmd, inRaw: in, in: bufio.NewWriterSize(in, 1<<16), out: bufio.NewReaderSize(out, 1<<16), seen: map[int]bool{}}
-	if p := os.Getenv("GOSYM_SMTLOG"); p != "" {
-		s.logf, _ = os.Create(fmt.Sprintf("%s.%d.smt2", p, os.Getpid()))
-	}
-	if strings.HasPrefix(kind, "cvc5") {
+	s.cmd, s.inRaw, s.in, s.out = cmd, in, bufio.NewWriterSize(in, 1<<16), bufio.NewReaderSize(out, 1<<16)
+	s.seen, s.stack, s.nDecl = map[int]bool{}, nil, 0
+	if strings.HasPrefix(s.kind, "cvc5") {
 		s.send("(set-logic QF_BV)")
 	}
 	s.send("(set-option :produce-models true)")
-	return s
+}
+
+// checkSat sends (check-sat) and reads the verdict under a hard wall-clock limit: a solver that
+// does not honour its own timeout is killed and restarted, and the query counts as unknown.
+func (s *Solver) checkSat(limitMs int) (line string) {
+	s.send("(check-sat)")
+	s.in.Flush()
+	proc := s.cmd.Process
+	killed := false
+	wd := time.AfterFunc(time.Duration(limitMs)*time.Millisecond, func() {
+		killed = true
+		proc.Kill()
+	})
+	defer func() {
+		wd.Stop()
+		if r := recover(); r != nil {
+			if !killed {
+				panic(r)
+			}
+			s.cmd.Wait()
+			s.watchdogKills++
+			s.start()
+			line = "watchdog"
+		}
+	}()
+	return s.readLine()
 }
 
 func (s *Solver) Close() {
@@ -191,9 +226,20 @@ func (s *Solver) Check(pc []*Term, extra *Term, vars []*Term) (string, Model) {
 	if isZ3 {
 		s.send(fmt.Sprintf("(set-option :timeout %d)", solverTimeoutMs))
 	}
-	s.send("(check-sat)")
-	s.in.Flush()
-	line := s.readLine()
+	hard := 3*longTimeoutMs + 5000
+	if isZ3 {
+		hard = 3*solverTimeoutMs + 10000
+	}
+	line := s.checkSat(hard)
+	if line == "watchdog" {
+		// the process was restarted with an empty stack: nothing to pop
+		n = 0
+		s.syncPC(pc)
+		n = len(s.stack)
+		if extra != nil {
+			s.pushAssert(extra)
+		}
+	}
 	if line != "sat" && line != "unsat" && !strings.HasPrefix(line, "(error") && s.kind == "z3new" {
 		// stage 2: fresh one-shot portfolio (z3 QF_BV tactic, cvc5); stage 3: incremental again, long timeout
 		if r2, m2 := portfolio(pc, extra, vars); r2 == "sat" || r2 == "unsat" {
@@ -213,9 +259,19 @@ func (s *Solver) Check(pc []*Term, extra *Term, vars []*Term) (string, Model) {
 			return r2, m2
 		}
 		s.send(fmt.Sprintf("(set-option :timeout %d)", longTimeoutMs))
-		s.send("(check-sat)")
-		s.in.Flush()
-		line = s.readLine()
+		line = s.checkSat(2*longTimeoutMs + 5000)
+		if line == "watchdog" {
+			s.unknown++
+			s.queries++
+			s.dur += time.Since(t0)
+			return "unknown", nil
+		}
+	}
+	if line == "watchdog" {
+		s.unknown++
+		s.queries++
+		s.dur += time.Since(t0)
+		return "unknown", nil
 	}
 	var model Model
 	res := line
@@ -439,6 +495,15 @@ func portfolio(pc []*Term, extra *Term, vars []*Term) (string, Model) {
 	}
 	c1 := run([]string{"z3-new", "-in", fmt.Sprintf("-t:%d", oneShotTimeoutMs)})
 	c2 := run([]string{"cvc5", "--lang=smt2", "--produce-models", fmt.Sprintf("--tlimit=%d", oneShotTimeoutMs)})
+	// hard limit: a process that ignores its own time limit is killed (its answer is then unknown)
+	hard := time.AfterFunc(time.Duration(2*oneShotTimeoutMs+3000)*time.Millisecond, func() {
+		for _, c := range []*exec.Cmd{c1, c2} {
+			if c.Process != nil {
+				c.Process.Kill()
+			}
+		}
+	})
+	defer hard.Stop()
 	var got ans
 	for i := 0; i < 2; i++ {
 		a := <-ch
